@@ -95,10 +95,12 @@ package boltz
 //@   censures[present-means-no-create] idxBucketPresent(index, tx) ==> dbSame()
 //@   censures[the-index-bucket] result != nil && result.ErrorHolderImpl != nil && (idxBucketPresent(index, tx) ==> result.Err == nil && result.Bucket != nil && ref(result.Bucket) == uxB(index, tx))
 //@ func (*uniqueIndex).Read
-//@   props C09
+//@   props C09 C03 C18
 //@   nosafety
 //@   modifies *
 //@   ensures[read-only] idxBucketPresent(index, tx) ==> dbSame()
+//@   callpre[looks-the-value-up-in-this-transaction's-index-bucket] Get@1: recv == ret(getIndexBucket, 1).Bucket && str(arg0) == str(val)
+//@   lensures[answers-with-what-this-transaction's-index-bucket-holds-and-nothing-remembered-from-another] (result != nil ==> called(Get, 1) && result == ret(Get, 1)) && (called(Get, 1) ==> result == ret(Get, 1))
 //@ funcparam (*uniqueIndex).CheckIntegrity.errorSink(err, fixed)
 //@   requires[fixed-only-after-a-repair-in-fix-mode] fixed ==> ciFix && ciDirty
 //@   modifies *
